@@ -11,6 +11,7 @@ use crate::{
 use std::fmt::{Display, Formatter};
 use std::io;
 use std::io::ErrorKind;
+use std::sync::atomic::{AtomicUsize, Ordering};
 use std::sync::{Arc, Mutex};
 
 #[derive(Clone)]
@@ -55,6 +56,22 @@ impl Display for ConnectionError {
     }
 }
 
+/// Counts a request in while it is being served
+struct ActiveRequest(Arc<AtomicUsize>);
+
+impl ActiveRequest {
+    fn new(counter: Arc<AtomicUsize>) -> Self {
+        counter.fetch_add(1, Ordering::AcqRel);
+        Self(counter)
+    }
+}
+
+impl Drop for ActiveRequest {
+    fn drop(&mut self) {
+        self.0.fetch_sub(1, Ordering::AcqRel);
+    }
+}
+
 impl Tunnel {
     pub fn new(
         context: Arc<core::Context>,
@@ -89,14 +106,33 @@ impl Tunnel {
     }
 
     async fn listen_inner(&mut self) -> io::Result<()> {
+        let active_requests = Arc::new(AtomicUsize::new(0));
         loop {
             log_id!(trace, self.id, "Tunnel waiting for request");
-            let request = match tokio::time::timeout(
-                self.context.settings.client_listener_timeout,
-                self.downstream.listen(),
-            )
-            .await
-            {
+            // The listener timeout is for sessions which have nothing going on. While a request
+            // is being served the session is kept, and the same future is polled again:
+            // `listen()` is what moves the data of the running requests, and it is not
+            // cancellation safe
+            let listen_result = {
+                let listen = self.downstream.listen();
+                tokio::pin!(listen);
+                loop {
+                    match tokio::time::timeout(
+                        self.context.settings.client_listener_timeout,
+                        listen.as_mut(),
+                    )
+                    .await
+                    {
+                        Err(_) if active_requests.load(Ordering::Acquire) > 0 => log_id!(
+                            trace,
+                            self.id,
+                            "Ignoring listen timeout due to there are some active requests"
+                        ),
+                        x => break x,
+                    }
+                }
+            };
+            let request = match listen_result {
                 Ok(Ok(None)) => {
                     log_id!(debug, self.id, "Tunnel closed gracefully");
                     return Ok(());
@@ -131,7 +167,10 @@ impl Tunnel {
                 }
             };
 
+            let active_request = ActiveRequest::new(active_requests.clone());
             tokio::spawn(async move {
+                let _active_request = active_request;
+
                 fn report_fatal_if_too_many_open_files(
                     context: &Arc<core::Context>,
                     e: &ConnectionError,
